@@ -29,7 +29,7 @@ CHECKS = {
                      'schedule, independence under later mutations) and against the model. Known findings R3, R24, R14.', ref='DESIGN.md §4 C05'),
     'C06': dict(text='Unrolling: counts reset, idempotence, untouched outside operations, n·T for blocks whose last-ending operation is a '
                      'leaf and the unrolled multiset are checked on the implementation at every apply_modifiers and against the model; '
-                     'the selection of the latest leaf (pickLatest) and n·T for a chain are proved. Library concatenation clause evaluated on the '
+                     'the selection of the latest leaf (pickLatest), n·T for a chain and the heap-level unrolling of flat blocks (count 1, max(1,n)×k leaf nodes, second application adds nothing) are proved. Library concatenation clause evaluated on the '
                      'constructors: known finding R5.',
                 ref='DESIGN.md §4 C06'),
     'C07': dict(text='Two-counter acquisition scan: circuit index = position, qubit index = rank, filters and tag partition are theorems '
